@@ -239,11 +239,22 @@ class World:
     last_put_size_before = {}
 
 
+_SHARED = {}
+
+
+def shared_model():
+    """one driver process for the whole run (`init B` resets the model state)"""
+    m = _SHARED.get("m")
+    if m is None or m.p.poll() is not None:
+        m = _SHARED["m"] = Model("cache")
+    return m
+
+
 def execute(budget, ops, use_model=True):
     """run ops on the real cache (and the model); returns dict(oracle=[...], mismatch=[...], transcript=[...])"""
     w = World(budget)
     w.kind_of = {}
-    model = Model("cache") if use_model else None
+    model = shared_model() if use_model else None
     res = dict(oracle=[], mismatch=[], transcript=[])
     try:
         if model:
@@ -272,8 +283,7 @@ def execute(budget, ops, use_model=True):
             if res["oracle"] or res["mismatch"]:
                 break
     finally:
-        if model:
-            model.close()
+        pass
     return res
 
 
@@ -441,6 +451,13 @@ def main(chk, replay=None):
 
 
 CORPUS = [
+    # forgetting another function must not disturb the recency order of the survivors: (1,1) was written first but read
+    # last, so the put that needs room must evict (1,2), not (1,1)
+    dict(budget=1000, ops=[["put", 1, 1, 1, "b", 250, 1], ["put", 1, 2, 2, "b", 250, 1], ["put", 1, 3, 3, "b", 250, 1],
+                           ["put", 3, 1, 4, "b", 20, 1], ["read", 1, 1], ["ffn", 3], ["put", 2, 1, 5, "b", 250, 1],
+                           ["getm", [[1, 1], [1, 2], [1, 3], [2, 1]]], ["read", 1, 1]]),
+    dict(budget=1000, ops=[["put", 1, 1, 1, "b", 250, 1], ["put", 1, 2, 2, "b", 250, 1], ["put", 3, 1, 4, "b", 20, 1],
+                           ["ismem", 1, 1], ["fcall", 3, 1], ["put", 2, 1, 5, "b", 400, 1], ["getm", [[1, 1], [1, 2], [2, 1]]]]),
     # re-put of a resident key with an oversize value must not leave the stale entry resident
     dict(budget=400, ops=[["put", 1, 1, 1, "b", 100, 1], ["put", 1, 1, 2, "b", 1000, 1], ["getm", [[1, 1]]], ["read", 1, 1]]),
     # fa#1 vs fa#10: forget_function must not touch the other function
